@@ -65,6 +65,12 @@ type GLower[k any, v any] interface {
 	Do(a k) v
 }
 
+// GClash names a type parameter like the type of its constraint: whatever is printed for the
+// parameter and whatever is printed for the constraint must not be confused with each other.
+type GClash[Stringer dep.Stringer, V any] interface {
+	Put(s Stringer, v V) Stringer
+}
+
 // Named has method names that exercise the naming rules: initialisms in
 // non-canonical case, and a lower-case method (mockable in the same package only).
 type Named interface {
